@@ -9,12 +9,21 @@ open Eru Eru.CpuMem
 /-- the keep-bind request with zero CPU delta and memory delta `dm` -/
 def keepReq (dm : Int) : RawReq := { bind := false, keepBind := true, cpuReq := 0, cpuLim := 0, memReq := dm, memLim := dm }
 
-/-- full statement of the property: on a whole-core node, whenever the unchanged keep-bind
-    re-allocation of a bound workload living on the node succeeds, it keeps cores and NUMA node -/
+/-- the workload lives on the node: its cores exist and the node's usage includes its pieces -/
+def LivesOn (info : NodeInfo) (w : Workload) : Prop :=
+  ∀ k ∈ w.cpuMap.keys, info.cap.cpuMap.has k = true ∧ w.cpuMap.get k ≤ info.use.cpuMap.get k
+
+/-- the recorded CPU request agrees with the pieces held (C05) -/
+def RecordedAgrees (B : Int) (w : Workload) : Prop :=
+  piecesRequest { bind := true, cpuNum := w.cpuReq.toNat, cpuDen := 1000, mem := 0 } B = planTotal w.cpuMap
+
+/-- full statement of the property: on a whole-core node, for a bound workload that lives on the node
+    and whose recorded request agrees with its pieces, whenever the unchanged keep-bind re-allocation
+    succeeds, it keeps cores and NUMA node -/
 def PropC33 : Prop :=
   ∀ (info : NodeInfo) (B maxShare : Int) (w : Workload) (dm : Int) (order : List String) (w' : Workload),
     1 ≤ B → (maxShare = -1 ∨ 1 ≤ maxShare) → info.validate = true → wholeCoreNode B info = true →
-    w.cpuMap ≠ [] →
+    w.cpuMap ≠ [] → LivesOn info w → RecordedAgrees B w →
     calculateRealloc info B maxShare w (keepReq dm) order = .ok w' →
     mapEq w'.cpuMap w.cpuMap = true ∧ w'.numa = w.numa
 
@@ -29,7 +38,7 @@ theorem affinity_keeps_counterexample : ¬ PropC33 := by
   intro h
   have := h witnessNode 100 (-1) witnessWorkload 0 []
     { cpuReq := 1500, cpuLim := 1500, memReq := 10, memLim := 10, cpuMap := [("1",100),("0",50)] }
-    (by decide) (by decide) (by decide) (by decide) (by decide) (by decide)
+    (by decide) (by decide) (by decide) (by decide) (by decide) (by unfold LivesOn; decide) (by unfold RecordedAgrees; decide) (by decide)
   revert this
   decide
 
@@ -60,7 +69,11 @@ theorem has_mapSub (c p : Eru.Plan) (k : String) (h : c.has k = true) : (mapSub 
     workloads.  Guards (each explicit): no NUMA map; every core's capacity is one share `B`
     (`wholeCoreNode`); the workload's map has distinct keys, is non-empty and gives `B` pieces per core;
     its cores are used by it alone (`usage = B`, which `Validate` forces on a whole-core node once the
-    workload lives there); its recorded CPU request is its number of cores (C05) with limit = request. -/
+    workload lives there); its recorded CPU request is its number of cores (C05) with limit = request.
+    Excluded on purpose: bound workloads recorded with limit 0 or limit ≠ request — `Validate` then
+    rewrites the request (limit 0: unchanged request but the limit stays 0; limit > request: the request
+    is raised to the limit, i.e. the CPU amount *changes*, which is outside "no CPU change"); the fixed
+    code records request = limit for every bound deployment, so such records only come from elsewhere. -/
 theorem affinity_keeps_partial (info : NodeInfo) (B maxShare : Int) (w : Workload) (dm : Int) (w' : Workload)
     (hB : 1 ≤ B) (hB2 : (w.cpuMap.length : Int) * B ≤ 2 ^ 50)
     (hck : info.cap.cpuMap.keys.Nodup) (huk : info.use.cpuMap.keys.Nodup) (hnuma : info.cap.numa = [])
@@ -78,8 +91,9 @@ theorem affinity_keeps_partial (info : NodeInfo) (B maxShare : Int) (w : Workloa
     cases hm : w.cpuMap with
     | nil => exact absurd hm hM1
     | cons _ _ => rfl
-  unfold calculateRealloc keepReq at h
-  rw [if_neg (by simp [reallocExact])] at h
+  unfold calculateRealloc at h
+  rw [if_neg (by simp [reallocExact, keepReq])] at h
+  unfold reallocCore reallocReq givenBack keepReq at h
   simp only [hne, Bool.not_false, if_true, Int.zero_add] at h
   -- request validation
   generalize hnr : ({ bind := true, cpuReq := w.cpuReq, cpuLim := w.cpuLim, memReq := dm + w.memReq, memLim := dm + w.memLim } : RawReq) = newReq at h
